@@ -280,6 +280,47 @@ theorem C02_tag_contents_nodup (c : Collection) (dir : Option PPath) (d : Doc) (
 example : (lst exDoc.tags).map (fun t => (t.key, t.value)) = [("site", "A"), ("project", "only"), ("species", "x")] := by
   decide +kernel
 
+/-! ### follow-up (wave 6): tag contents as *pairs*
+
+`C02_exact` states the tag case through the text `label ++ NUL ++ value`, which is not injective in
+(label, value) (a label may itself contain NUL).  The statements below use the pair itself, so two distinct
+tags whose joined texts coincide under *any* separator are two entries. -/
+
+theorem encTags_pairs (tids : List Tag) :
+    (encTags tids).map (fun t => (t.key, t.value)) = tids.map (fun t => (t.key, t.value)) := by
+  unfold encTags
+  rw [List.map_map]
+  have : ((fun o : TagObj => (o.key, o.value)) ∘ fun x : Tag × Nat => (⟨x.2, x.1.key, x.1.value⟩ : TagObj))
+      = (fun t : Tag => (t.key, t.value)) ∘ Prod.fst := rfl
+  rw [this, ← List.map_map, List.zipIdx_map_fst]
+
+/-- a (label, value) pair is an entry of the written tag list iff it is the content of a tag of the traversal -/
+theorem C02_tag_pairs_exact (c : Collection) (dir : Option PPath) (d : Doc) (h : save c dir = .ok d)
+    (kv : String × String) :
+    kv ∈ (lst d.tags).map (fun t => (t.key, t.value)) ↔ kv ∈ (tagsOf c.trav).map (fun t => (t.key, t.value)) := by
+  obtain ⟨rs, _, spec⟩ := save_spec h
+  rw [spec.tags, encTags_pairs]
+  simp only [List.mem_map, mem_tagTable, mem_tagsOf]
+
+/-- … iff a tag with exactly that label and that value is reachable from the collection -/
+theorem C02_tag_pairs_reachable (c : Collection) (dir : Option PPath) (d : Doc) (h : save c dir = .ok d)
+    (k v : String) :
+    (k, v) ∈ (lst d.tags).map (fun t => (t.key, t.value)) ↔ ∃ t : Tag, Reachable c (.tag t) ∧ t.key = k ∧ t.value = v := by
+  rw [C02_tag_pairs_exact c dir d h]
+  simp only [List.mem_map, mem_tagsOf, C02_trav_iff_reachable, Prod.mk.injEq]
+
+/-- two distinct tags whose `label:value` texts coincide: both are written, with different ids -/
+def exCollide : Collection :=
+  .recordingSet { uuid := "rs", created_on := "2024-01-01T00:00:00", recordings := [
+    { uuid := "r1", path := ⟨"", ["a.wav"]⟩, duration := "1", channels := "1", samplerate := "8000",
+      tags := [{ key := "time", value := "dawn:early" }] },
+    { uuid := "r2", path := ⟨"", ["b.wav"]⟩, duration := "1", channels := "1", samplerate := "8000",
+      tags := [{ key := "time:dawn", value := "early" }] }] }
+example : ∃ d, save exCollide none = .ok d
+    ∧ (lst d.tags).map (fun t => (t.id, t.key, t.value)) = [(0, "time", "dawn:early"), (1, "time:dawn", "early")] := by
+  refine ⟨_, rfl, ?_⟩
+  decide +kernel
+
 
 /-! ### a saved document populates only what its schema declares -/
 
